@@ -67,10 +67,35 @@ def _mk_init(name, P):
 
 
 class _Ctx(object):
-    def __init__(self, in_string):
+    def __init__(self, in_string, transport=None):
         self.in_string = in_string
-        self.transport = None
+        self.transport = transport
         self.in_document = None
+
+
+from spyne.server.http import HttpTransportContext          # noqa: E402
+
+
+class _HttpT(HttpTransportContext):
+    """An HTTP transport context with a given request method and Content-Type (nothing else is consulted)."""
+
+    def __init__(self, content_type, verb='POST'):
+        self._ct, self._verb = content_type, verb
+        self.resp_code = None
+        self.resp_headers = {}
+
+    def get_request_content_type(self):
+        return self._ct
+
+    def get_request_method(self):
+        return self._verb
+
+
+MULTIPART = (b'--BOUND\r\nContent-Type: text/xml; charset=utf-8\r\nContent-ID: <root>\r\n\r\n'
+             b'<a/>\r\n--BOUND--\r\n')
+TRANSPORTS = [None, ('text/xml', 'POST'), ('text/xml; charset=utf-8', 'POST'), ('application/soap+xml', 'POST'),
+              ('multipart/related; boundary="BOUND"; type="text/xml"; start="<root>"', 'POST'),
+              ('multipart/related; charset=utf-8; boundary=BOUND', 'POST'), (None, 'POST'), ('text/xml', 'GET')]
 
 
 class _Recorder(object):
@@ -118,9 +143,10 @@ def _mk_create(name, P):
                 targets=['spyne.protocol.xml:XmlDocument.create_in_document',
                          'spyne.protocol.soap.soap11:Soap11.create_in_document',
                          'spyne.protocol.soap.soap11:_parse_xml_string'],
-                desc="on every path, each call that parses request bytes receives a parser that XMLParser(**kw) built in "
-                     "this call with kw carrying exactly the values of self.parser_kwargs (symbolic flags); no parse call "
-                     "uses lxml's default parser",
+                desc="on every path -- no transport context, HTTP with text/xml, soap+xml, multipart/related (SwA), missing "
+                     "Content-Type, wrong verb -- each call that parses request bytes receives a parser that XMLParser(**kw) "
+                     "built in this call with kw carrying exactly the values of self.parser_kwargs (symbolic flags) and "
+                     "nothing else; no parse call uses lxml's default parser",
                 assumptions=["the parse entry points of lxml are fromstring, XMLID, XML and parse"], replay=False)
     def ob(c):
         prot = P()
@@ -133,7 +159,10 @@ def _mk_create(name, P):
         rec.install()
         chunks = c.choose([[b'<a/>'], [b'<a>', b'</a>'], []], 'in_string')
         charset = c.choose([None, 'utf-8'], 'charset')
-        ctx = _Ctx(chunks)
+        tr = c.choose(TRANSPORTS, 'transport')
+        if tr is not None and tr[0] is not None and tr[0].startswith('multipart'):
+            chunks = [MULTIPART] if chunks else []
+        ctx = _Ctx(chunks, None if tr is None else _HttpT(*tr))
         out = c.run(prot.create_in_document, ctx, charset)
         c.check('parse_reached_or_fault', bool(rec.parse_calls) or out.raised, detail=repr(out))
         tokens = [t for t, a in rec.parsers]
@@ -144,6 +173,7 @@ def _mk_create(name, P):
                 kw = parser.kwargs
                 c.check('parser_has_all_flags', all(kw.get(k) is flags[k] for k in FLAGS),
                         detail={k: repr(kw.get(k)) for k in FLAGS})
+                c.check('parser_has_no_other_flags', set(kw) <= set(prot.parser_kwargs), detail=sorted(set(kw) - set(prot.parser_kwargs)))
                 c.check('parser_removes_comments', kw.get('remove_comments') is True)
         c.check('parser_built_without_positional_args', all(not a for t, a in rec.parsers))
     return ob
@@ -183,7 +213,7 @@ for _f in ('xml', 'soap11', 'soap12'):
 
 
 ATTACKS = ['external_general_entity_file', 'external_parameter_entity', 'external_dtd', 'internal_entity',
-           'billion_laughs', 'xinclude']
+           'billion_laughs', 'xinclude', 'deep_nesting']
 
 
 def _attack_doc(kind, family, canary_path, slot):
@@ -204,6 +234,9 @@ def _attack_doc(kind, family, canary_path, slot):
         ents = ['<!ENTITY a0 "lol">'] + ['<!ENTITY a%d "%s">' % (i, ('&a%d;' % (i - 1)) * 10) for i in range(1, 10)]
         dtd = '<!DOCTYPE x [%s]>' % ''.join(ents)
         payload = '&a9;'
+    elif kind == 'deep_nesting':
+        dtd = ''
+        payload = '<n>' * 2000 + '5' + '</n>' * 2000
     else:
         dtd = ''
         payload = '<xi:include xmlns:xi="http://www.w3.org/2001/XInclude" href="file://%s" parse="text"/>' % canary_path
@@ -216,7 +249,8 @@ def _attack_doc(kind, family, canary_path, slot):
 
 def _mk_audit(family):
     @obligation('C17.audit.%s' % family, targets=['spyne.server.wsgi:WsgiApplication.handle_rpc'],
-                bounded="canary corpus of 6 attack documents x {integer, text} slots x {with, without charset} against the "
+                bounded="canary corpus of 7 attack documents x {integer, text} slots x {with, without charset} x {plain, root part of a "
+                        "multipart/related request} against the "
                         "installed lxml (audit of the assumed external contract, not a proof)",
                 desc="with default settings, external/parameter/internal entities, external DTDs and XInclude never bring "
                      "the canary file's content or entity replacement text to user code or into the response; entity "
@@ -229,6 +263,7 @@ def _mk_audit(family):
         kind = c.choose(ATTACKS, 'attack')
         slot = c.choose(['i', 'u'], 'slot')
         charset = c.choose([False, True], 'content_type_charset')
+        multipart = family != 'xml' and c.choose([False, True], 'as_root_part_of_multipart_related')
         d = tempfile.mkdtemp(prefix='pyvc-canary-')
         canary = os.path.join(d, 'canary.txt')
         token = 'CANARY-4242-TOKEN'
@@ -247,9 +282,15 @@ def _mk_audit(family):
             body = _attack_doc(kind, family, canary, slot)
             if charset:
                 body = b'<?xml version="1.0" encoding="utf-8"?>' + body
+            ctype = 'text/xml; charset=utf-8' if charset else 'text/xml'
+            if multipart:
+                body = (b'--BOUND\r\nContent-Type: text/xml; charset=utf-8\r\nContent-ID: <root>\r\n\r\n' + body +
+                        b'\r\n--BOUND--\r\n')
+                ctype = 'multipart/related; boundary="BOUND"; type="text/xml"; start="<root>"' + ('; charset=utf-8' if charset
+                                                                                                  else '')
             env = {'REQUEST_METHOD': 'POST', 'PATH_INFO': '/', 'QUERY_STRING': '', 'SERVER_NAME': 'h',
                    'SERVER_PORT': '80', 'wsgi.url_scheme': 'http', 'wsgi.input': io.BytesIO(body),
-                   'CONTENT_TYPE': 'text/xml; charset=utf-8' if charset else 'text/xml', 'CONTENT_LENGTH': str(len(body))}
+                   'CONTENT_TYPE': ctype, 'CONTENT_LENGTH': str(len(body))}
             seen = []
 
             def sr(status, headers, exc_info=None):
@@ -268,6 +309,8 @@ def _mk_audit(family):
         leak = [token, 'INTERNAL-ENTITY-TEXT-77', '77']
         c.check('nothing_in_response', all(x.encode() not in resp for x in leak), detail=resp[:300])
         c.check('nothing_in_user_args', all(x not in repr(a) for a in got for x in leak), detail=got)
+        if kind == 'deep_nesting':
+            c.check('nesting_bomb_rejected', not got and (b'Client' in resp or b'Sender' in resp), detail=(got and 'called', resp[:300]))
         if kind == 'billion_laughs':
             c.check('bomb_not_expanded', all(len(repr(a)) < 200 for a in got) and len(resp) < 5000, detail=(got, len(resp)))
     return ob
